@@ -12,6 +12,12 @@ F finish <t>                                     run goroutine t's call to compl
 F fwd <t>                                        goroutine t issues ForwardDNS
     -> pc=<pc of t> if=<inFlight> ret=<0|1> cl=<closes> ic=<0|1> bad=<badUses> busy=<goroutines in use>
 
+L reset <n>                                      n goroutines, empty forwarder cache
+L call <t> <ok|trunc|fail|cancel>                goroutine t calls forwardWithDialArg (the transport will answer so) and runs to its first park point
+L reset-fwd <t> | L evict <t>                    goroutine t runs retireAllDnsForwarders / evictIdleDnsForwarders, to its first park point
+L step <t>                                       goroutine t runs to its next park point (factory, a yield of the entry's methods, ForwardDNS) or returns
+    -> at=<idle|factory|busy|b2..r3> e=<forwarder it is on|-> cached=<forwarder in the cache|-> ret=<value returned in this step|-> fw=<inFlight/retired/closes/busy per forwarder>
+
 U reset
 U push <ev>                     ev = short | to | io | d:<id>:bad | d:<id>:<q>:<tc>:<tag>
 U fwd <orig> <dot 0|1> <writeOk 0|1>
@@ -22,12 +28,14 @@ P start <w> <c> <id> <slot> | P recv <c> <id> <tag> | P closeswap <c> <id> | P s
 P cancel <w> | P writefail <w> | P close <c> | P leave <w> | P alloc <next> <used ids>
     -> see handleP
 
-C reset <check 0|1> <client>*                    client = id:name:spell:qtype:scope:route(f|r)[:class]
-C arrive <i> | C join <i> | C refuse <i> | C wake <i> | C evict <name> <qtype> <scope>
+C reset <check 0|1> <client>*                    client = id:name:spell:qtype:scope:route(f|r)[:class[:nq]]   (nq = number of questions, default 1)
+C arrive <i> | C join <i> | C refuse <i> | C wake <i> | C malformed <i> | C evict <name> <qtype> <scope>
 C respell <name> <qtype> <scope> <spell>         the packed entry is re-packed with another spelling of its name
-C refresh <i> <scheme> <att> <att> <ev 0|1>     background refresh (optimistic cache) for client i's question
-C resolve <f> <udp|tcp|tcpudp> <att> <att>       att = fail | m:<id>:<q>:<resp>:<rcode>:<tc>:<ans>[:<ttl0>], q = - | name.spell.qtype[.class]
-    -> pc=<pc of the client concerned> out=<outcome emitted by this step or -> calls=<n> cache=<entries>
+C refresh <i> <scheme> <rr 0|1> <ev 0|1> <att>*  background refresh (optimistic cache) for client i's question
+C resolve <f> <udp|tcp|tcpudp> <rr 0|1> <att>*   att = fail | m:<id>:<q>:<resp>:<rcode>:<tc>:<ans>[:<ttl0>], q = - | name.spell.qtype[.class]
+                                                 the attempts come in pairs, one pair per level of dialSend (primary, tcp+udp fallback);
+                                                 rr = 1: the harness's response-routing rules are in force (`routeOf`), 0: `fallback: accept` only
+    -> [res=<..> xch=<upstream exchanges issued>] pc=<pc of the client concerned> out=<outcome emitted by this step or -> calls=<n> cache=<entries>
 ```
 -/
 open DaeVerif DaeVerif.C09 DaeVerif.Proto
@@ -40,6 +48,7 @@ structure DSt where
   c : Ctl.St := Ctl.init []
   ppol : Pipe.Recycle := Pipe.codePolicy
   p : Pipe.St := Pipe.init
+  l : Loop.St := Loop.init 0
 
 def b01 (b : Bool) : String := if b then "1" else "0"
 def p01 (s : String) : Bool := s == "1"
@@ -99,6 +108,63 @@ def handleF (d : DSt) : List String → DSt × String
     | none => (d, "bad-op")
   | _ => (d, "bad-op")
 
+/-! ### Loop -/
+def lRetStr : Loop.Ret → String
+  | .ok => "ok" | .truncated => "trunc" | .err => "err" | .canceled => "cancel" | .retiredTwice => "retired-twice"
+
+def lOut (before s : Loop.St) (t : Nat) : String :=
+  let (at_, e) : String × String := match s.opc t with
+    | .idle => ("idle", "-")
+    | .loading .. => ("loading", "-")
+    | .creating e _ _ => ("factory", toString e)
+    | .storing e _ _ => ("storing", toString e)
+    | .closingLoser e _ _ _ => ("closing-loser", toString e)
+    | .busy e _ => ("busy", toString e)
+    | .beginning e _ _ | .ending e _ | .retiring e _ =>
+      ((match Loop.inner s e t with | some p => fpcStr p | none => "none"), toString e)
+  let cached := match Loop.cachedIdx s with | some e => toString e | none => "-"
+  let ret := if s.rets.length > before.rets.length then
+      (match s.rets.getLast? with | some (_, r) => lRetStr r | none => "-") else "-"
+  let fw := (List.range s.nents).map fun e =>
+    match s.ent e with
+    | some x => s!"{x.f.inFlight}/{b01 x.f.retired}/{x.f.closes + x.rawCloses}/{x.f.pcs.countP (fun p => p == .busy)}/{x.f.badUses}"
+    | none => "?"
+  s!"at={at_} e={e} cached={cached} ret={ret} fw={",".intercalate fw}"
+
+def parseRes : String → Option Loop.Res
+  | "ok" => some .ok | "trunc" => some .truncated | "fail" => some .fail | "cancel" => some .canceled | _ => none
+
+def handleL (d : DSt) : List String → DSt × String
+  | ["reset", n] =>
+    match n.toNat? with
+    | some n => let l := Loop.init n; ({ d with l := l }, lOut l l 0)
+    | none => (d, "bad-op")
+  | ["call", t, r] =>
+    match t.toNat?, parseRes r with
+    | some t, some r =>
+      let l := Loop.stepToPark (Loop.step d.l (.call t r)) t; ({ d with l := l }, lOut d.l l t)
+    | _, _ => (d, "bad-op")
+  | ["reset-fwd", t] =>
+    match t.toNat? with
+    | some t =>
+      let l0 := Loop.step d.l (.reset t)
+      let l := if Loop.atPark l0 t then l0 else Loop.stepToPark l0 t
+      ({ d with l := l }, lOut d.l l t)
+    | none => (d, "bad-op")
+  | ["evict", t] =>
+    match t.toNat? with
+    | some t =>
+      let l0 := Loop.step d.l (.evict t)
+      let l := if Loop.atPark l0 t then l0 else Loop.stepToPark l0 t
+      ({ d with l := l }, lOut d.l l t)
+    | none => (d, "bad-op")
+  | ["step", t] =>
+    match t.toNat? with
+    | some t => let l := Loop.stepToPark d.l t; ({ d with l := l }, lOut d.l l t)
+    | none => (d, "bad-op")
+  | "life" :: _ => (d, "ok")  -- emitted by the harness only when its lifecycle oracle on the implementation fails
+  | _ => (d, "bad-op")
+
 /-! ### Udp -/
 def parseEv (tok : String) : Option Udp.Ev :=
   match tok.splitOn ":" with
@@ -147,10 +213,14 @@ def parseClient (tok : String) : Option Ctl.Client :=
   match tok.splitOn ":" with
   | [id, n, sp, t, sc, r] => do
     let id ← id.toNat?; let n ← n.toNat?; let sp ← sp.toNat?; let t ← t.toNat?; let sc ← sc.toNat?
-    pure ⟨id, ⟨n, sp, t, 1⟩, sc, if r == "r" then .reject else .forward⟩
+    pure ⟨id, ⟨n, sp, t, 1⟩, sc, if r == "r" then .reject else .forward, 1⟩
   | [id, n, sp, t, sc, r, cl] => do
     let id ← id.toNat?; let n ← n.toNat?; let sp ← sp.toNat?; let t ← t.toNat?; let sc ← sc.toNat?; let cl ← cl.toNat?
-    pure ⟨id, ⟨n, sp, t, cl⟩, sc, if r == "r" then .reject else .forward⟩
+    pure ⟨id, ⟨n, sp, t, cl⟩, sc, if r == "r" then .reject else .forward, 1⟩
+  | [id, n, sp, t, sc, r, cl, nq] => do
+    let id ← id.toNat?; let n ← n.toNat?; let sp ← sp.toNat?; let t ← t.toNat?; let sc ← sc.toNat?; let cl ← cl.toNat?
+    let nq ← nq.toNat?
+    pure ⟨id, ⟨n, sp, t, cl⟩, sc, if r == "r" then .reject else .forward, nq⟩
   | _ => none
 
 def parseAtt (tok : String) : Option Ctl.Att :=
@@ -164,6 +234,32 @@ def parseAtt (tok : String) : Option Ctl.Att :=
     pure (.msg ⟨id, q, p01 resp, rcode, p01 tc, ans, p01 ttl0⟩)
   | _ => none
 
+/-- The response-routing rules of the harness's second DNS configuration (`c09DnsConfigRR`), as a function of
+the message `ResponseSelect` looks at - the instance of the universally quantified `Round.route` that the tie
+executes.  The rules match on the addresses of the A / AAAA records only; the harness encodes the answer token
+in the last two bytes of the address:
+`ip(10.9.3.0/24, 2001:db8::300/120) -> reject`, `ip(10.9.2.0/24, 2001:db8::200/120) -> ut` (tcp),
+`ip(10.9.1.128/25, 2001:db8::180/121) -> ub` (tcp+udp), `fallback: accept`. -/
+def routeOf (rr : Bool) (m : Ctl.UpMsg) : Ctl.RespRoute :=
+  if !rr then .accept else
+  match m.q with
+  | none => .accept
+  | some q =>
+    if (q.qtype == 1 || q.qtype == 28) && m.ans != 0 then
+      (if m.ans / 256 == 3 then .reject
+       else if m.ans / 256 == 2 then .next .tcp
+       else if 384 ≤ m.ans && m.ans < 512 then .next .tcpudp
+       else .accept)
+    else .accept
+
+def mkRounds (rr : Bool) : Ctl.Scheme → List Ctl.Att → List Ctl.Round
+  | sch, a1 :: a2 :: rest =>
+    let route := match Ctl.forwardWithFallback sch a1 a2 with
+      | .ok m => routeOf rr m
+      | .err _ => .accept
+    ⟨a1, a2, route⟩ :: mkRounds rr (match route with | .next s => s | _ => sch) rest
+  | _, _ => []
+
 def parseScheme : String → Option Ctl.Scheme
   | "udp" => some .udp | "tcp" => some .tcp | "tcpudp" => some .tcpudp | _ => none
 
@@ -176,6 +272,7 @@ def srcStr : Ctl.Src → String
 
 def errStr : Ctl.ErrKind → String
   | .upstream => "upstream" | .truncated => "truncated" | .mismatch => "mismatch" | .notResponse => "upstream"
+  | .tooDeep => "upstream"
 
 def outcomeStr : Ctl.Outcome → String
   | .wrote r => s!"wrote:id={r.id},q={qStr r.q},rc={r.rcode},tc={b01 r.tc},ans={r.ans}"
@@ -217,20 +314,30 @@ def handleC (d : DSt) : List String → DSt × String
     match i.toNat? with
     | some i => let c := Ctl.step d.ccfg d.c (.join i); ({ d with c := c }, cOut d.c c i)
     | none => (d, "bad-op")
-  | ["refresh", i, sch, a1, a2, ev] =>
+  | "refresh" :: i :: sch :: rr :: ev :: atts =>
     -- ev = 1: the harness saw the (still stale) entry dropped by backgroundRefresh's deferred clean-up,
     -- which is an `evict` of that key in the model
-    match i.toNat?, parseScheme sch, parseAtt a1, parseAtt a2 with
-    | some i, some sch, some a1, some a2 =>
-      let c := Ctl.step d.ccfg d.c (.refresh i sch a1 a2)
+    match i.toNat?, parseScheme sch, atts.mapM parseAtt with
+    | some i, some sch, some atts =>
+      let rounds := mkRounds (p01 rr) sch atts
+      let c := Ctl.step d.ccfg d.c (.refresh i sch rounds)
+      let xch := match d.c.clients[i]? with
+        | some cl => Ctl.exchanges d.ccfg cl 0 sch rounds
+        | none => 0
       let c := match ev == "1", c.clients[i]? with
         | true, some cl => Ctl.step d.ccfg c (.evict cl.key)
         | _, _ => c
-      ({ d with c := c }, cOut d.c c 1000000)
-    | _, _, _, _ => (d, "bad-op")
+      ({ d with c := c }, s!"xch={xch} " ++ cOut d.c c 1000000)
+    | _, _, _ => (d, "bad-op")
   | ["wake", i] =>
     match i.toNat? with
     | some i => let c := Ctl.step d.ccfg d.c (.wake i); ({ d with c := c }, cOut d.c c i)
+    | none => (d, "bad-op")
+  | ["malformed", i] =>
+    -- the harness reports what became of a query without exactly one question that the real code did NOT refuse
+    -- at once; in the model it was refused (FORMERR) by `arrive`: nothing happens here
+    match i.toNat? with
+    | some i => (d, cOut d.c d.c i)
     | none => (d, "bad-op")
   | ["evict", n, t, sc] =>
     match n.toNat?, t.toNat?, sc.toNat? with
@@ -242,19 +349,23 @@ def handleC (d : DSt) : List String → DSt × String
     | some n, some t, some sc, some sp =>
       let c := Ctl.step d.ccfg d.c (.respell ⟨n, t, 1, sc⟩ sp); ({ d with c := c }, cOut d.c c 1000000)
     | _, _, _, _ => (d, "bad-op")
-  | ["resolve", f, sch, a1, a2] =>
-    match f.toNat?, parseScheme sch, parseAtt a1, parseAtt a2 with
-    | some f, some sch, some a1, some a2 =>
-      let c := Ctl.step d.ccfg d.c (.resolve f sch a1 a2)
+  | "resolve" :: f :: sch :: rr :: atts =>
+    match f.toNat?, parseScheme sch, atts.mapM parseAtt with
+    | some f, some sch, some atts =>
+      let rounds := mkRounds (p01 rr) sch atts
+      let c := Ctl.step d.ccfg d.c (.resolve f sch rounds)
       let leader := match d.c.flights[f]? with | some fl => fl.leader | none => 0
+      let xch := match d.c.clients[leader]? with
+        | some cl => Ctl.exchanges d.ccfg cl 0 sch rounds
+        | none => 0
       let res := match c.flights[f]? with
         | some fl => (match fl.result with
           | some (.ok m) => s!"ok:id={m.id}"
           | some (.err e) => s!"err:{errStr e}"
           | none => "running")
         | none => "none"
-      ({ d with c := c }, s!"res={res} " ++ cOut d.c c leader)
-    | _, _, _, _ => (d, "bad-op")
+      ({ d with c := c }, s!"res={res} xch={xch} " ++ cOut d.c c leader)
+    | _, _, _ => (d, "bad-op")
   | _ => (d, "bad-op")
 
 /-! ### Pipe -/
@@ -344,6 +455,7 @@ def handle (d : DSt) (line : String) : DSt × String :=
   | "U" :: rest => handleU d rest
   | "C" :: rest => handleC d rest
   | "P" :: rest => handleP d rest
+  | "L" :: rest => handleL d rest
   | "X" :: _ => (d, "inconclusive")
   | "H" :: _ => (d, "no-such-behaviour: every enabled step of the model can be taken")  -- a hang of the real code  -- a history the harness abandoned (its goroutines were not scheduled in time)
   | _ => (d, "bad-op")
